@@ -25,7 +25,7 @@ CHECKS = {
    technique="deterministic simulation: seeded hash-order, discovery-order, pool-width and compiler-instance-history exploration vs reference build"),
  "C16": dict(engine="sim-proptest", category="exploration", design_ref="DESIGN.md §4 C16",
    text="Seeded exploration of (fuzzer shape, property, expectation, seed, run count, run context) over properties compiled from source by the real tool-chain, against a shrink-free reference loop built from Prng::from_seed / sample / eval: found-or-not, iteration count, labels and verdict must agree; every counterexample is re-applied, replayed from its recorded choices, compared shortlex with the first failing case, and re-run on the same thread and alone on another thread under another hash epoch. The shrinker's memo table is checked operation by operation against the uncached function over model fuzzers with data-dependent consumption.",
-   note="Trusted: Prng::sample and PropertyTest::eval as building blocks of the reference loop; the harness's own fuzz library (std lib cannot be fetched); replayability is required only for fuzzers that are replay-consistent on the unshrunk case.",
+   note="Trusted: Prng::sample and PropertyTest::eval as building blocks of the reference loop; the harness's own fuzz library (std lib cannot be fetched); every harness fuzzer is replay-consistent (generation under a seed and replay of the recorded choices agree), which the check asserts (first-case-not-replayable) rather than assumes.",
    technique="deterministic simulation: seeded seeds x fuzzer shapes x run contexts vs shrink-free reference model; model-based check of the shrinker cache over lookup histories"),
  "C18": dict(engine="sim-blueprint", category="exploration", design_ref="DESIGN.md §4 C18",
    text="Seeded histories of operations (apply conforming / near-miss / unfiltered / when none left, reload, query address+policy) on the durable plutus.json of generated parameterised validators, executed through the real Project::blueprint → apply_parameter → write path and checked after every step against a trivial reference model (original program, applied values, remaining schemas): accepted iff an independent conformance predicate says so, never a panic, nothing changes on rejection, exactly the first remaining parameter of exactly that validator is consumed, published code decodes to [(original d1)…dk], hash is blake2b-224 of the published bytes; at the end one-by-one ≡ all-at-once ≡ raw-bytes path and the applied validator evaluates like the original on all arguments.",
